@@ -29,6 +29,7 @@ import (
 	cgroup "github.com/bandprotocol/chain/v3/cylinder/workers/group"
 	"github.com/bandprotocol/chain/v3/pkg/tss"
 	bandtesting "github.com/bandprotocol/chain/v3/testing"
+	bandtsstypes "github.com/bandprotocol/chain/v3/x/bandtss/types"
 	tsskeeper "github.com/bandprotocol/chain/v3/x/tss/keeper"
 	tsstypes "github.com/bandprotocol/chain/v3/x/tss/types"
 	"github.com/bandprotocol/chain/v3/zzverif/engine"
@@ -59,6 +60,12 @@ type Cfg struct {
 	// the group under test is then proposed at height 5.  The older group passes
 	// CreatedHeight+CreationPeriod while the group under test is still inside its own period.
 	OlderGroup bool `json:"older_group,omitempty"`
+	// DupMembers: the group is proposed (MsgTransitionGroup by the authority) with a member list that
+	// names one account twice; a lower-case letter is an account (a, b), the upper-case letter the same
+	// account spelled in bech32's all-upper-case form.  The proposal is the first event of the search;
+	// if it is rejected the search ends there, otherwise the DKG is driven as usual with the account
+	// acting for each of its member ids.
+	DupMembers []string `json:"duplicate_members,omitempty"`
 }
 
 func (c Cfg) name() string {
@@ -72,6 +79,9 @@ func (c Cfg) name() string {
 	if c.OlderGroup {
 		nm += fmt.Sprintf("-older-p%d", c.CreationPeriod)
 	}
+	if len(c.DupMembers) > 0 {
+		nm += "-dup-" + strings.Join(c.DupMembers, "")
+	}
 	return nm
 }
 
@@ -82,6 +92,8 @@ type spec struct {
 	exp sync.Map
 	// olderSweep: height whose EndBlock sweeps the older group (0 = no older group)
 	olderSweep int64
+	// dupMsg: the proposal of a DupMembers configuration (delivered by the "propose" event)
+	dupMsg *bandtsstypes.MsgTransitionGroup
 }
 
 func (s *spec) Config() any { return s.cfg }
@@ -196,6 +208,9 @@ func (s *spec) Build(w *engine.World) (sdk.Context, engine.Model) {
 	ctx := engine.Fork(w.Root)
 	tssh.ApplyParams(w, ctx, tssh.Params{CreationPeriod: s.cfg.CreationPeriod})
 	n := s.cfg.N
+	if len(s.cfg.DupMembers) > 0 {
+		return s.buildDup(w, ctx)
+	}
 	accs := tssh.Accounts(n+1, int64(4000+10*n+s.cfg.T))
 	if s.cfg.OlderGroup {
 		ctx = s.buildOlderGroup(w, ctx, accs[:n])
@@ -235,6 +250,46 @@ func (s *spec) Build(w *engine.World) (sdk.Context, engine.Model) {
 			panic("round-3 base: group is in status " + got)
 		}
 	}
+	return ctx, m
+}
+
+// buildDup prepares a DupMembers configuration: the base state has no group; the proposal is tried on a
+// throw-away fork, and only if the chain accepts it there the member-side material is generated (group
+// id and DKG context are the same on the real path because both are functions of the unchanged state).
+func (s *spec) buildDup(w *engine.World, ctx sdk.Context) (sdk.Context, engine.Model) {
+	n := s.cfg.N
+	if len(s.cfg.DupMembers) != n {
+		panic("DupMembers must name n members")
+	}
+	accs := tssh.Accounts(3, int64(4900+s.cfg.T))
+	var members []bandtesting.Account
+	var strs []string
+	for _, d := range s.cfg.DupMembers {
+		a := accs[int(strings.ToLower(d)[0]-'a')]
+		members = append(members, a)
+		if d == strings.ToUpper(d) {
+			strs = append(strs, strings.ToUpper(a.Address.String()))
+		} else {
+			strs = append(strs, a.Address.String())
+		}
+	}
+	s.dupMsg = bandtsstypes.NewMsgTransitionGroup(strs, uint64(s.cfg.T), ctx.BlockTime().Add(time.Hour), tssh.Authority.String())
+	s.mt = nil
+	trial := engine.Fork(ctx)
+	if res := w.Tx(trial, 0, s.dupMsg); res.OK() {
+		gid := tss.GroupID(w.App.TSSKeeper.GetGroupCount(trial))
+		dkg, err := w.App.TSSKeeper.GetDKGContext(trial, gid)
+		if err != nil {
+			panic(err)
+		}
+		g := &tssh.Group{ID: gid, N: uint64(n), T: uint64(s.cfg.T), Accounts: members, DKGCtx: dkg}
+		g.GenRound1()
+		g.GenRound2()
+		setOwnKeys(g)
+		s.mt = buildMat(g, accs[2], s.cfg.Kinds)
+	}
+	m := &model{St: "NONE", R1: make([]string, n), R2: make([]string, n), R3: make([]string, n),
+		Mal: make([]bool, n), Dev: make([]bool, n)}
 	return ctx, m
 }
 
@@ -291,6 +346,9 @@ func (s *spec) Enabled(w *engine.World, ctx sdk.Context, mm engine.Model, depth 
 	var evs []string
 	add := func(f string, a ...any) { evs = append(evs, fmt.Sprintf(f, a...)) }
 	devOK := func(i int) bool { return m.Dev[i] || m.nDev() < s.cfg.MaxDev }
+	if m.St == "NONE" {
+		return []string{"propose"}
+	}
 	for i := 0; i < n; i++ {
 		if m.St == "R1" && m.R1[i] == "" {
 			add("r1:%d:h", i)
@@ -391,6 +449,9 @@ func (s *spec) Step(w *engine.World, ctx sdk.Context, mm engine.Model, ev string
 	m := mm.(*model)
 	mt := s.mt
 	var st engine.StepResult
+	if ev == "propose" {
+		return s.propose(w, ctx, m)
+	}
 	gid := mt.g.ID
 	before := chainStatus(w, ctx, gid)
 	parts := strings.Split(ev, ":")
@@ -489,6 +550,41 @@ func (s *spec) Step(w *engine.World, ctx sdk.Context, mm engine.Model, ev string
 		engine.Fatal3("C04: unknown event %s", ev)
 	}
 	s.monitors(w, ctx, m, &st, before, ev)
+	return ctx, st
+}
+
+// propose delivers the proposal of a DupMembers configuration.
+func (s *spec) propose(w *engine.World, ctx sdk.Context, m *model) (sdk.Context, engine.StepResult) {
+	var st engine.StepResult
+	class := "duplicate-member-other-casing"
+	seen := map[string]bool{}
+	for _, x := range s.dupMsg.Members {
+		if seen[x] {
+			class = "duplicate-member-same-spelling"
+		}
+		seen[x] = true
+	}
+	res := w.Tx(ctx, 0, s.dupMsg)
+	if !res.OK() {
+		st.Outcome = "propose:" + class + ":rejected"
+		st.Saw("propose:" + class + ":rejected:" + res.ErrName())
+		st.Stop = true
+		if res.Panic != "" {
+			st.Violate("handler-panic:propose", "%v", res.Err)
+		}
+		return ctx, st
+	}
+	st.Outcome = "propose:" + class + ":ACCEPTED"
+	if s.mt == nil {
+		engine.Fatal3("C04: proposal %v accepted in Step but rejected on the trial fork in Build", s.dupMsg.Members)
+	}
+	grp, err := w.App.TSSKeeper.GetGroup(ctx, s.mt.g.ID)
+	if err != nil {
+		st.Violate("group-missing", "after an accepted proposal: %v", err)
+		return ctx, st
+	}
+	m.St = "R1"
+	m.Created = int64(grp.CreatedHeight)
 	return ctx, st
 }
 
@@ -1009,6 +1105,11 @@ func configs(quick bool) []Cfg {
 		// (c) an older FALLEN group (created at height 2) is swept at the end of height 7 while the group
 		// under test (created at height 5, period 5) is in round 1, 2 or 3
 		{N: 2, T: 2, MaxDev: 1, CreationPeriod: 5, Kinds: []string{"x"}, Probes: false, Depth: depth(2) + 1, OlderGroup: true},
+		// (d) proposals naming one account twice (other bech32 casing / same spelling): rejected on a
+		// correct chain (one transition); otherwise the honest DKG with that account acting for both ids
+		{N: 3, T: 2, MaxDev: 0, CreationPeriod: period, Kinds: []string{"x"}, Probes: false, Depth: depth(3) + 1, DupMembers: []string{"a", "A", "b"}},
+		{N: 3, T: 2, MaxDev: 0, CreationPeriod: period, Kinds: []string{"x"}, Probes: false, Depth: depth(3) + 1, DupMembers: []string{"a", "b", "B"}},
+		{N: 3, T: 2, MaxDev: 0, CreationPeriod: period, Kinds: []string{"x"}, Probes: false, Depth: depth(3) + 1, DupMembers: []string{"a", "a", "b"}},
 	}
 	if quick {
 		for _, nt := range [][2]int{{2, 1}, {2, 2}, {3, 2}} {
@@ -1063,7 +1164,8 @@ func init() {
 				"expired@R1", "expired@R2", "expired@R3", "complain_success", "complain_failed",
 				"r3:h:confirm:ok", "r3:h:complain:ok", "r3:fc:ok", "r3:ks:ok", "r3:sg:ok", "r3:nr:ok", "r1:bc:ok", "r2:x:ok", "r2:s:ok",
 				"unfounded-complaint-against-already-flagged-member", "zero-share-verified-by-recipient", "unfounded-complaint-about-zero-share-failed",
-				"older-group-swept-while-group-in:R1", "older-group-swept-while-group-in:R2", "older-group-swept-while-group-in:R3"}
+				"older-group-swept-while-group-in:R1", "older-group-swept-while-group-in:R2", "older-group-swept-while-group-in:R3",
+				"propose:duplicate-member-other-casing:rejected", "propose:duplicate-member-same-spelling:rejected"}
 			if !r.Quick() {
 				r.Required = append(r.Required, "active:with-deviators", "r3:cfx:ok", "r2:k:ok")
 			}
